@@ -118,6 +118,13 @@ def isinstance_cond(R, v, tnode, frame):
 @builtin("len")
 def m_len(R, args, kw, node):
     v = args[0]
+    if v.t.kind == "union" and R.pure:
+        sized = [m for m in v.t.members if m.kind in ("str", "seq", "tuple", "bytes")]
+        if len(sized) > 1:
+            res = R.seq_len(V(sized[-1], v.t.proj(v.z, sized[-1])))
+            for m in reversed(sized[:-1]):
+                res = z3.If(v.t.is_(v.z, m), R.seq_len(V(m, v.t.proj(v.z, m))), res)
+            return mk_int(res)
     if v.t.kind == "union":
         v = R.project(v, lambda t: t.kind in ("str", "seq", "list", "tuple", "bytes", "dict", "set"), lab(R, node, "len"))
     if v.t.kind == "list" and R.cell(v).ty.elem.kind == "pending":
@@ -199,6 +206,21 @@ def m_zip(R, args, kw, node):
     return const(Iter(zsimp(n), at, src_locs=[l for i in its for l in i.src_locs]))
 
 
+@builtin("map")
+def m_map(R, args, kw, node):
+    fn = args[0]
+    it = R.iter_of(args[1], node)
+    if len(args) != 2:
+        raise Unsupported("map over several iterables")
+
+    def at(k):
+        return R.call_value(fn, [it.at(k)], {}, node, None)
+
+    if it.concrete is not None:
+        return const(Iter(it.n, None, concrete=[R.call_value(fn, [x], {}, node, None) for x in it.concrete]))
+    return const(Iter(it.n, at, src_locs=it.src_locs))
+
+
 @builtin("min", "max")
 def m_minmax(R, args, kw, node):
     is_min = isinstance(node.func, ast.Name) and node.func.id == "min"
@@ -278,7 +300,11 @@ def m_str(R, args, kw, node):
     if not args:
         return mk_str("")
     v = args[0]
-    if v.t.kind == "str" and isinstance(node.func, ast.Name) and node.func.id == "str":
+    is_str_call = isinstance(node.func, ast.Name) and node.func.id == "str"
+    if v.t.kind == "union" and is_str_call and v.t.index(T.Str) is not None:
+        other = R.ctx.uf_apply(R, "str_of", [R.data(v)], T.Str)
+        return V(T.Str, z3.If(v.t.is_(v.z, T.Str), v.t.proj(v.z, T.Str), other.z))
+    if v.t.kind == "str" and is_str_call:
         return v
     if v.t.kind == "int":
         return V(T.Str, z3.If(v.z >= 0, z3.IntToStr(v.z), z3.Concat(z3.StringVal("-"), z3.IntToStr(-v.z))))
@@ -775,12 +801,11 @@ def dict_delitem(R, d, key, label):
 @method(("dict", "vmap"), "get")
 def d_get(R, recv, args, kw, node):
     m = R.content(recv, R.old_heap) if recv.t.kind == "dict" else recv
-    try:
-        k = R.coerce(R.data(args[0]), m.t.k)
-    except EngineError:
+    g, k = R.member_key(R.data(args[0]) if not args[0].is_const else args[0], m.t.k)
+    if k is None:
         return args[1] if len(args) > 1 else mk_none()
     dflt = args[1] if len(args) > 1 else kw.get("default", mk_none())
-    present = z3.Select(m.t.has(m.z), k.z)
+    present = z3.And(g, z3.Select(m.t.has(m.z), k.z))
     val = V(m.t.v, z3.Select(m.t.val(m.z), k.z))
     if dflt.t == val.t:
         return V(val.t, z3.If(present, val.z, dflt.z))
